@@ -387,7 +387,7 @@ func init() {
 		explain: "every indicator and strategy pipeline (and the Report pipelines, and the vote combinators over stub strategies) is executed with one producer goroutine per input (channel capacity a grid parameter), one independent reader per output; on every data path the run must end with all outputs closed and no goroutine left (outcome done; deadlock / leak / panic are violations with a native replay); the executor logs every channel operation, close, go, WaitGroup operation and shared-memory access with the Go-memory-model edges and the solver (QF_IDL) shows that no conflicting pair can be reordered: the outcome and all values then hold for every interleaving, GOMAXPROCS and pacing (first-divergence lemma, DESIGN.md 2.6)",
 		bounds: func(t string) string {
 			if t == "thorough" {
-				return indBoundsT + "; n in {0,1,w-1,w,w+1,w+2,w+3}; input capacity 0,1,2,5; unequal input lengths n-1/n/n+1 for multi-input indicators; strategies: " + stratBounds + " incl. default configurations; combinators over 2-3 stubs emitting n-1/n/n+1 actions; one @zeroden1 case (n = w+2: one division per path may have a zero denominator, the value is then the IEEE special) per non-heavy indicator / strategy; one late-producer case (pipeline assembled before any producer exists) per indicator / strategy configuration; for the widely separated periods also input capacities maxPeriod-1 and maxPeriod-3"
+				return indBoundsT + "; n in {0,1,w-1,w,w+1,w+2,w+3}; input capacity 0,2 (1 and 5 too for the first two configurations of each entry); unequal input lengths n-1/n/n+1 for multi-input indicators; strategies: " + stratBounds + " incl. default configurations; combinators over 2-3 stubs emitting n-1/n/n+1 actions; one @zeroden1 case (n = w+2: one division per path may have a zero denominator, the value is then the IEEE special) per non-heavy indicator / strategy; one late-producer case (pipeline assembled before any producer exists) per indicator / strategy configuration; for the widely separated periods also input capacities maxPeriod-1 and maxPeriod-3"
 			}
 			return indBoundsQ + "; n in {0,1,w,w+1,w+2}; input capacity 0,1,2; unequal input lengths for multi-input indicators; strategies: " + stratBounds + "; combinators over 2 stubs emitting n-1/n/n+1 actions; one @zeroden1 case (n = w+2: one division per path may have a zero denominator, the value is then the IEEE special) per non-heavy indicator / strategy; one late-producer case (pipeline assembled before any producer exists) per indicator / strategy configuration; for the widely separated periods also input capacities maxPeriod-1 and maxPeriod-3"
 		},
@@ -467,6 +467,9 @@ func init() {
 						for _, c := range caps {
 							if s.nper == 3 && c == 1 && tier != "thorough" {
 								continue
+							}
+							if tier == "thorough" && ci > 1 && (c == 1 || c == 5) {
+								continue // the full capacity range for the first two configurations only
 							}
 							add(csi("H_C03", s, cfg, n, c, 0))
 						}
